@@ -180,9 +180,11 @@ pub fn gen_plan(ch: &mut Choices, mode: &str, thorough: bool) -> Plan {
     let roll = *ch.pick(&[Roll::Minute, Roll::Hour, Roll::Day]);
     let reuse = ch.chance(1, 2);
     let max_files = if c11 {
-        match ch.weighted(&[6, 2]) {
+        match ch.weighted(&[12, 4, 1]) {
             0 => 1 + ch.choose(6) as usize,
-            _ => 32,
+            1 => 32,
+            // "never delete", spelled the way people spell it
+            _ => *ch.pick(&[usize::MAX, usize::MAX / 2, 100_000]),
         }
     } else {
         match ch.weighted(&[3, 5]) {
@@ -1083,7 +1085,7 @@ impl Engine for Fsim {
         if self.mode == "C10" {
             "one run = one generated batch history (1-10 batches x 1-5 events, separators \\n \\0 \\r\\n, reuse on/off, clock advances, restarts): a fault-free execution with the strict oracle, then EVERY filesystem call index x EVERY applicable fault kind (error, EINTR, short write, zero write, torn write, crash before/after/mid-write with three crash-recovery variants), then sampled 2-4-fault sequences; evaluations counts executions; non-trivial = an execution in which an injected fault fired; distinct = distinct (history, fault schedule, crash variant)"
         } else {
-            "one run = one generated configuration (template incl. dotted / sibling-extended prefixes, roll by day/hour/minute, max_files 1-6 or 32, size limit tiny..huge, reuse on/off) x pre-existing directory contents (own files from earlier runs, sibling sets, strangers) x clock trajectory (zero, forward, period-crossing, backward steps) x batch history with restarts, executed fault-free against a reference rolling policy; non-trivial = at least one roll, retention delete, reuse or restart happened; distinct = distinct history hash"
+            "one run = one generated configuration (template incl. dotted / sibling-extended prefixes, roll by day/hour/minute, max_files 1-6, 32 or huge (up to usize::MAX), size limit tiny..huge, reuse on/off) x pre-existing directory contents (own files from earlier runs, sibling sets, strangers) x clock trajectory (zero, forward, period-crossing, backward steps) x batch history with restarts, executed fault-free against a reference rolling policy; non-trivial = at least one roll, retention delete, reuse or restart happened; distinct = distinct history hash"
         }
     }
 
